@@ -710,7 +710,7 @@ class Arbiter(object):
         # gracefully reload watchers
         for watcher in self.iter_watchers():
             yield watcher._reload(graceful=graceful, sequential=sequential)
-            tornado_sleep(self.warmup_delay)
+            yield tornado_sleep(self.warmup_delay)
 
     def numprocesses(self):
         """Return the number of processes running across all watchers."""
